@@ -668,6 +668,10 @@ func (e *enc) invoke(x *ssa.Call) {
 	// reflect.TypeOf(v).String(): the name of v's dynamic type
 	if tc, ok := c.Value.(*ssa.Call); ok && c.Method.Name() == "String" {
 		if cal := tc.Common().StaticCallee(); cal != nil && cal.String() == "reflect.TypeOf" {
+			if name, ok := e.typeOfStatic[tc]; ok {
+				e.fr.val[x] = smtStr(name)
+				return
+			}
 			if src, ok := e.typeOfArg[tc]; ok {
 				e.fr.val[x] = e.define("tyname", "String", e.typeNameOf(src))
 				return
